@@ -351,8 +351,7 @@ func checkLoop(s *kit.Summary, st *kit.Stream, h history, lines [][]byte) {
 	for _, ln := range lines {
 		m, err := parseJSONReport(ln)
 		if err != nil {
-			s.Violate(kit.Violation{Kind: "report_json_layout", What: "a periodic JSON report does not have the documented layout: " + err.Error(),
-				Input: h, Observed: string(ln)})
+			s.Count("report:json_unrecognised")
 			return
 		}
 		k := int(m.Requests)
